@@ -14,9 +14,21 @@ import (
 // pickDir chooses a registered directory; removed ones are chosen on
 // purpose with a fixed share so that calls on tombstoned directories are
 // common.
-func (c *vdCase) pickDir(label string) *mNode {
+func (c *vdCase) pickDir(label string) *mNode { return c.pickDirIn(label, true) }
+
+// pickTreeDir chooses a directory of the ordinary tree. The worker-facing
+// calls (CreateChildren, RemoveAllChildren, FilterChildren, InstallHooks, ...)
+// are only made on those: a named attribute directory is handed out as a
+// plain Directory by VirtualOpenNamedAttributes, so no caller of /repo ever
+// holds one as a PrepopulatedDirectory.
+func (c *vdCase) pickTreeDir(label string) *mNode { return c.pickDirIn(label, false) }
+
+func (c *vdCase) pickDirIn(label string, attrToo bool) *mNode {
 	var live, dead []*mNode
 	for _, d := range c.reg {
+		if d.fsAttr && !attrToo {
+			continue
+		}
 		if d.deleted {
 			dead = append(dead, d)
 		} else {
@@ -26,7 +38,9 @@ func (c *vdCase) pickDir(label string) *mNode {
 	// Directories with an open paginated listing are preferred now and
 	// then, so that listings see mutations between their pages.
 	if len(c.cursors) > 0 && rapid.IntRange(0, 9).Draw(c.rt, label+"_listed") < 3 {
-		return c.cursors[rapid.IntRange(0, len(c.cursors)-1).Draw(c.rt, label+"_cursor")].d
+		if d := c.cursors[rapid.IntRange(0, len(c.cursors)-1).Draw(c.rt, label+"_cursor")].d; attrToo || !d.fsAttr {
+			return d
+		}
 	}
 	deadShare := 2
 	if c.mode == "C14" {
@@ -107,8 +121,12 @@ func (c *vdCase) checkChangeInfo(fn string, d *mNode, ci virtual.ChangeInfo, pre
 func (c *vdCase) opMkdir() {
 	d := c.pickDir("dir")
 	name := c.pickName(d, "name")
-	if !d.deleted && c.m.liveDirCount() >= 6 && c.m.lookup(d, name) == nil {
+	if !d.deleted && !d.fsAttr && c.m.liveDirCount() >= 6 && c.m.lookup(d, name) == nil {
 		c.rec.Exclude("mkdir skipped: the case already has 6 live directories (size bound)")
+		return
+	}
+	if !d.deleted && d.fsAttr && c.m.liveAttrDirCount() >= 5 && c.m.lookup(d, name) == nil {
+		c.rec.Exclude("mkdir skipped: the case already has 5 live directories in named attribute directories (size bound)")
 		return
 	}
 	c.noteDirUse(d, true)
@@ -207,6 +225,10 @@ func (c *vdCase) opLink() {
 	}
 	if leaf.nlink == 0 && !leaf.stateful() {
 		c.rec.Exclude("VirtualLink of a symlink that is unlinked everywhere: outcome is handle allocator specific")
+		return
+	}
+	if leaf.kind != "symlink" && leaf.fsAttr != d.fsAttr {
+		c.rec.Exclude("VirtualLink between a named attribute directory and the ordinary tree (no client does this: named attributes are only reachable through OPENATTR of their owner)")
 		return
 	}
 	c.noteDirUse(d, true)
@@ -350,6 +372,11 @@ func (c *vdCase) opRename() {
 	dNew := dOld
 	if rapid.IntRange(0, 9).Draw(c.rt, "cross_directory") < 6 {
 		dNew = c.pickDir("new_dir")
+		if dOld.fsAttr != dNew.fsAttr {
+			// Refused; a rename within the old directory is made instead.
+			c.rec.Exclude("VirtualRename between a named attribute directory and the ordinary tree (no client does this: named attributes are only reachable through OPENATTR of their owner)")
+			dNew = dOld
+		}
 	}
 	newName := c.pickName(dNew, "new_name")
 	if rapid.IntRange(0, 39).Draw(c.rt, "foreign_directory") == 0 {
